@@ -195,7 +195,7 @@ def match_known(known, key):
     return None
 
 
-def run_check(modname, tier, seed, replay_path=None, jobs=None):
+def run_check(modname, tier, seed, replay_path=None, jobs=None, only=None):
     mod = importlib.import_module(modname)
     prop = mod.PROPERTY
     t0 = time.time()
@@ -217,6 +217,11 @@ def run_check(modname, tier, seed, replay_path=None, jobs=None):
                 print("CANNOT-RUN property=%s (prepare failed)" % prop)
                 return 2
         shards = mod.shards(tier, seed)
+        if only:
+            # development aid: run a subset of the shards; never writes the real evidence file
+            shards = [s for s in shards if only in s.get("name", "")]
+            ev_dir = os.path.join(VERIF_ROOT, ".build", "selftest-evidence")
+            print("DEV-RUN: only %d shard(s) matching %r; evidence not written" % (len(shards), only))
     jobs = jobs or int(os.environ.get("VERIF_JOBS", "16"))
     results = []
     with ThreadPoolExecutor(max_workers=jobs) as ex:
